@@ -157,32 +157,54 @@ def run(chk: Check) -> None:
             if (c.qualname, a) not in known and a not in auto_persist_set(prog, c):
                 chk.info('SYM-unclassified', f'{c.qualname}.{a}: assigned in __init__, neither in the reference table nor auto-persisted')
 
-    # (ii) key agreement per class: what is saved is loaded and vice versa
+    # (ii) key agreement: what a class's save_instance_state writes is read back by the load_instance_state chain of every concrete class that inherits it,
+    # and what its load_instance_state reads is written by their save chain (each method calls super(): the chain along the MRO is what runs, so a save
+    # method shared through a common base pairs with the load methods of the subclasses)
     n_keys = 0
+    own = {}
     for c in classes:
         sf, lf = prog.view(c.vmethods.get('save_instance_state')), prog.view(c.vmethods.get('load_instance_state'))
-        if sf is None and lf is None:
-            continue
         saved = dict(saved_keys_of(prog, sf)) if sf else {}
         loaded = dict(loaded_keys_of(prog, lf)) if lf else {}
         rf = prog.view(c.vmethods.get('recreate_from'))  # a class may restore its keys in its own recreate_from (SavableFuture)
         if rf is not None:
             for k, v in loaded_keys_of(prog, rf).items():
                 loaded.setdefault(k, []).extend(v)
-        for a in auto_persist_set(prog, c):  # auto-persisted members are written under their own name by save_members
+        own[c.qualname] = (sf, lf, saved, loaded)
+
+    def chain(c, idx):
+        out = {}
+        for k_ in c.mro_classes():
+            if k_.qualname in own:
+                out.update(own[k_.qualname][idx])
+            for a in auto_persist_set(prog, k_) if k_.qualname in own else ():   # auto-persisted members are written under their own name by save_members
+                out.setdefault(a, None)
+        return out
+    in_set = {c.qualname for c in classes}
+    for c in classes:
+        sf, lf, saved, loaded = own[c.qualname]
+        if sf is None and lf is None:
+            continue
+        subs = [d for d in prog.subclasses(c) if d.qualname in in_set]
+        leaves = [d for d in [c] + subs if not any(e.qualname in in_set for e in prog.subclasses(d))] or [c]
+        if subs and lf is None:
+            leaves = [d for d in leaves if d is not c]   # a base that only contributes a save method is completed by its subclasses
+        for a in auto_persist_set(prog, c):
             saved.setdefault(a, None)
             loaded.setdefault(a, [])
         for k in saved:
             n_keys += 1
             if sf is None:
                 continue
-            chk.ob('SYM-key-agreement', sf, k in loaded, f'key {k!r} written by {c.name}.save_instance_state is read back by its load_instance_state '
-                   f'(loaded keys: {sorted(map(str, loaded))})', kind=f'saved-key-loaded:{k}', expr=str(k))
+            missing = [d.name for d in leaves if k not in chain(d, 3)]
+            chk.ob('SYM-key-agreement', sf, not missing, f'key {k!r} written by {c.name}.save_instance_state is read back by its load_instance_state '
+                   f'(loaded keys: {sorted(map(str, chain(leaves[0], 3)))}' + (f'; not read back in {missing}' if missing else '') + ')', kind=f'saved-key-loaded:{k}', expr=str(k))
         for k in loaded:
             if lf is None:
                 continue
-            chk.ob('SYM-key-agreement', lf, k in saved, f'key {k!r} read by {c.name}.load_instance_state is written by its save_instance_state '
-                   f'(saved keys: {sorted(map(str, saved))})', kind=f'loaded-key-saved:{k}', expr=str(k))
+            missing = [d.name for d in leaves if k not in chain(d, 2)]
+            chk.ob('SYM-key-agreement', lf, not missing, f'key {k!r} read by {c.name}.load_instance_state is written by its save_instance_state '
+                   f'(saved keys: {sorted(map(str, chain(leaves[0], 2)))}' + (f'; not written in {missing}' if missing else '') + ')', kind=f'loaded-key-saved:{k}', expr=str(k))
     chk.floor('SYM-key-agreement', n_keys, 12)
 
     # (iii) load-context reads are supplied or guarded
